@@ -176,6 +176,60 @@ Section Run.
         end
     end.
 
+  (* The same search with a budget of visited nodes threaded through it.  Deciding that a
+     history has NO linearisation means visiting every order of the pending operations (16
+     concurrent operations: 16! orders); the budget makes the answer three-valued:
+     (_, Some w) a witness; (b, None) with b > 0: every order was tried, none works; (0, None):
+     undecided. *)
+  Fixpoint first_someB {A B} (f : A -> N -> N * option B) (l : list A) (b : N) : N * option B :=
+    match l with
+    | [] => (b, None)
+    | x :: l' =>
+        let '(b', r) := f x b in
+        match r with
+        | Some y => (b', Some y)
+        | None => if (b' =? 0)%N then (0%N, None) else first_someB f l' b'
+        end
+    end.
+
+  (* [oldest]: at a response of a pending thread try the pending operations in the order they
+     were invoked (operations tend to take effect in arrival order: three commits invoked before
+     a write and answered after it were all linearised before it) instead of the responding
+     thread first.  Any order is sound: the witness is validated separately. *)
+  Fixpoint searchB (oldest : bool) (fuel : nat) (bud : N) (a : state) (st : stmap) (pend : list nat) (acc : list nat)
+           (h : list hev) : N * option (list (list nat)) :=
+    match fuel with
+    | O => (bud, None)
+    | S f =>
+        if (bud =? 0)%N then (0%N, None) else
+        let bud := N.pred bud in
+        match h with
+        | [] => (bud, Some [])
+        | HInv t o :: h' =>
+            let '(b, r) := searchB oldest f bud a (sset st t (TPend o)) (t :: pend) [] h' in
+            (b, option_map (cons (rev acc)) r)
+        | HRes t r :: h' =>
+            match sget st t with
+            | TLin r' =>
+                if cmp r r' then
+                  let '(b, x) := searchB oldest f bud a (sset st t TIdle) (filter (fun x => negb (Nat.eqb x t)) pend) [] h' in
+                  (b, option_map (cons (rev acc)) x)
+                else (bud, None)
+            | TPend _ =>
+                first_someB
+                  (fun t' b =>
+                     match sget st t' with
+                     | TPend o' =>
+                         let (a', r') := mstep a o' in
+                         searchB oldest f b a' (sset st t' (TLin r')) pend (t' :: acc) h
+                     | _ => (b, None)
+                     end)
+                  (if oldest then rev pend else t :: filter (fun x => negb (Nat.eqb x t)) pend) bud
+            | TIdle => (bud, None)
+            end
+        end
+    end.
+
   (* two operations were in progress at once somewhere in the history *)
   Fixpoint overlaps (open : nat) (h : list hev) : bool :=
     match h with
